@@ -24,6 +24,10 @@ struct Inner {
     trace: Vec<(&'static str, u32)>,
     armed: Option<(String, u32, Mode)>,
     hit: bool,
+    /// artifact tasks wait at their first point until the harness lets background work run
+    /// (Quiesce): this makes the moment artifacts are produced an explicit, replayable choice
+    /// instead of a race between the blocking thread pool and the next event
+    artifact_gate_open: bool,
 }
 
 #[derive(Clone)]
@@ -31,12 +35,21 @@ pub struct Ctl {
     inner: Rc<RefCell<Inner>>,
     pub parked: Arc<Notify>,
     gate: Arc<Notify>,
+    artifact_gate: Arc<Notify>,
+    /// bumped at every restart of the node: tasks of a dropped node never resume
+    node_generation: Arc<std::sync::atomic::AtomicU64>,
 }
 
 impl Ctl {
     /// install a controller on this thread (one replay = one thread = one controller)
     pub fn install() -> Ctl {
-        let ctl = Ctl { inner: Rc::new(RefCell::new(Inner::default())), parked: Arc::new(Notify::new()), gate: Arc::new(Notify::new()) };
+        let ctl = Ctl {
+            inner: Rc::new(RefCell::new(Inner::default())),
+            parked: Arc::new(Notify::new()),
+            gate: Arc::new(Notify::new()),
+            artifact_gate: Arc::new(Notify::new()),
+            node_generation: Arc::new(std::sync::atomic::AtomicU64::new(0)),
+        };
         let c = ctl.clone();
         set_controller(Some(Box::new(move |name: &'static str| -> Option<PointFuture> {
             let mut i = c.inner.borrow_mut();
@@ -62,6 +75,18 @@ impl Ctl {
                     }
                 });
             }
+            if name == "signed_entity.create_artifact.before_compute" && !i.artifact_gate_open {
+                let gate = c.artifact_gate.clone();
+                let generation = c.node_generation.clone();
+                let born = generation.load(std::sync::atomic::Ordering::SeqCst);
+                return Some(Box::pin(async move {
+                    gate.notified().await;
+                    if generation.load(std::sync::atomic::Ordering::SeqCst) != born {
+                        // the node this task belongs to has been dropped (restart / crash)
+                        std::future::pending::<()>().await;
+                    }
+                }));
+            }
             None
         })));
         ctl
@@ -83,6 +108,20 @@ impl Ctl {
 
     pub fn was_hit(&self) -> bool {
         self.inner.borrow().hit
+    }
+
+    pub fn open_artifact_gate(&self) {
+        self.inner.borrow_mut().artifact_gate_open = true;
+        self.artifact_gate.notify_waiters();
+    }
+
+    /// the node was dropped and rebuilt: background tasks of the old node are dead
+    pub fn node_restarted(&self) {
+        self.node_generation.fetch_add(1, std::sync::atomic::Ordering::SeqCst);
+    }
+
+    pub fn close_artifact_gate(&self) {
+        self.inner.borrow_mut().artifact_gate_open = false;
     }
 
     pub fn release(&self) {
